@@ -164,3 +164,13 @@ claim("C16",
            "steps and input columns present, outputs reachable, every input port used), wrappers transparent and chaining.",
       note="pipeline2dot / _pipeline_info / pipeline2str are bounded only (not applicable to the proof). Shape bounded; estimator protocol assumed.",
       technique="deductive verification on generic estimators per pipeline shape (generator semantics, closures, MethodType), z3")
+claim("C06",
+      text="Proof: norm='L2' fit / predict / transform are exactly one KMeans.fit / predict / transform call with the caller's arguments whose result is "
+           "kept / returned (identity with scikit-learn by delegation); norm='L1': predict returns an index of a Manhattan-nearest centre for every row, "
+           "transform is the matrix of Manhattan distances to all centres, the E-step (_labels_inertia_precompute_dense) labels every point with a "
+           "Manhattan-nearest centre, stores those distances and returns their weighted sum as inertia (ghost Sum congruence). Bounded: all sampled "
+           "multisets of 3,4,6 points on a 3x3 grid (duplicates, ties, n == k), k<=3, both init modes, float32/64, weights: fit succeeds, labels nearest, "
+           "inertia, centres within the data range, predict, transform; L2 equality with KMeans (labels, centres, predict, transform exactly).",
+      note="_fit_l1 / _kmeans_single_lloyd / _centers_dense (medians, empty-cluster relocation, best run) are ASSUMED in the proof and covered by the bounded "
+           "stand-in only (two defects of that part were repaired). pairwise_distances_argmin_min / manhattan_distances are assumed contracts.",
+      technique="deductive verification: Trace clauses for delegation, arg-min postconditions over a ghost Manhattan distance; z3")
